@@ -16,7 +16,9 @@ from vf.xmodel import build_api
 SHARDS = {'quick': 16, 'thorough': 64}
 TIMEOUT = {'quick': 1200, 'thorough': 7200}
 MUST_HIT = ['EarlierObject.rechecked', 'Snap.roundtrip', 'Snap.fixed-point', 'route.serialize_database', 'route.split-texts',
-            'route.persist_database', 'route.persist-split', 'route.dispatch', 'route.schema-less']
+            'route.persist_database', 'route.persist-split', 'route.dispatch', 'route.schema-less',
+            'build.schema-first', 'build.instances-first', 'build.formalize-last',
+            'Population.self-links', 'Population.permuted-compound-keys']
 MUST_REACH = ['xtuml/persist.py:serialize_value', 'xtuml/persist.py:serialize_instance',
               'xtuml/persist.py:serialize_association', 'xtuml/persist.py:serialize_unique_identifiers',
               'xtuml/persist.py:persist_instances', 'xtuml/persist.py:persist_schema',
@@ -58,10 +60,39 @@ class Mismatch(Exception):
         self.what = what
 
 
-def build_model(schema, pop, links):
-    '''API route: new + setattr for the non-referential values, relate for the links'''
+BUILD_ORDERS = ('schema-first', 'schema-first', 'instances-first', 'formalize-last')
+
+
+def build_model(schema, pop, links, order='schema-first'):
+    '''
+    API route: new + setattr for the non-referential values, relate for the links. The associations are
+    defined and formalized before the instances exist (schema-first), after them (instances-first), or
+    defined before and formalized after everything else, as a loader does (formalize-last); in the last two
+    the instances are created while their referential attributes are still ordinary attributes.
+    '''
     import xtuml
-    m = build_api(schema, xtuml.IntegerGenerator())
+    m = xtuml.MetaModel(xtuml.IntegerGenerator())
+    for kind, attrs in schema.classes:
+        m.define_class(kind, list(attrs))
+    for kind, name, attrs in schema.uniques:
+        m.define_unique_identifier(kind, name, *attrs)
+
+    def associations(formalize):
+        res = []
+        for r in schema.rops:
+            ass = m.define_association(r.rel, r.src, list(r.src_keys), 'M' in r.src_card,
+                                       'C' in r.src_card, r.src_phrase, r.tgt,
+                                       list(r.tgt_keys), 'M' in r.tgt_card,
+                                       'C' in r.tgt_card, r.tgt_phrase)
+            if formalize:
+                ass.formalize()
+            res.append(ass)
+        return res
+    asses = None
+    if order == 'schema-first':
+        associations(True)
+    elif order == 'formalize-last':
+        asses = associations(False)
     insts = {}
     referential = set((r.src, a) for r in schema.rops for a in r.src_keys)
     for kind, attrs in schema.classes:
@@ -72,9 +103,14 @@ def build_model(schema, pop, links):
                 if (kind, a) not in referential:
                     setattr(inst, a, row[a])
             insts[kind].append(inst)
+    if order == 'instances-first':
+        associations(True)
     for i, r in enumerate(schema.rops):
         for si, ti in links.get(i, []):
             xtuml.relate(insts[r.src][si], insts[r.tgt][ti], r.rel, r.src_phrase)
+    if asses:
+        for ass in asses:
+            ass.formalize()
     return m
 
 
@@ -96,7 +132,9 @@ def expect_same(ctx, route, before, m2):
 
 def check_model(ctx, rng, schema, pop, links, tmpdir):
     import xtuml
-    m = build_model(schema, pop, links)
+    order = rng.choice(BUILD_ORDERS)
+    ctx.hit('build.' + order)
+    m = build_model(schema, pop, links, order)
     before = sqlgen.snap(m)
     # the API-built model itself must show the planned links (sanity of the generator)
     planned = sum(len(v) for v in links.values())
@@ -213,5 +251,7 @@ def run(ctx):
                 ctx.count('links', sum(len(v) for v in links.values()))
             except Mismatch as e:
                 ctx.violation(e.key, e.what, case=case)
+        ctx.hit('Population.self-links', sqlgen.SELF_LINKS[0])
+        ctx.hit('Population.permuted-compound-keys', sqlgen.PERMUTED_KEYS[0])
     finally:
         shutil.rmtree(tmpdir, ignore_errors=True)
